@@ -446,7 +446,7 @@ func main() {
 			}
 			delete(d.Sets, "corpus")
 		}
-		var missing []string
+		missing := []string{}
 		for _, e := range []string{"accept", "z", "r0", "hint"} {
 			if !all[e] {
 				missing = append(missing, e)
